@@ -1,0 +1,16 @@
+//go:build verif
+
+package snowflake
+
+// Configuration switch for the /verif simulation checks: Setup cannot turn node-at-lowest off again
+// and has no way to restore a previous layout. With the verif tag off this file does not exist.
+
+// VerifSetConfig installs a layout (epoch in unix milliseconds, node bits 8/9/10, node position)
+// and returns a function that restores the previous one.
+func VerifSetConfig(epochMs int64, nodeBits uint8, nodeAtLowest bool) (restore func()) {
+	var e, b, l = _epoch, _nodeBits, _nodeAtLowest
+	_epoch, _nodeBits, _nodeAtLowest = epochMs, nodeBits, nodeAtLowest
+	return func() {
+		_epoch, _nodeBits, _nodeAtLowest = e, b, l
+	}
+}
